@@ -112,6 +112,12 @@ def gen_text(rng, cls="plain", max_measures=6):
     sel = rng.choice(["YES", "NO"])
     lines += [f"#SAMPLESTART:{ss};", f"#SAMPLELENGTH:{sl};", f"#DISPLAYBPM:{rng.choice(['', '120', '*', '90-180'])};",
               f"#SELECTABLE:{sel};", f"#BGCHANGES:{rng.choice(['', '0.000=bg.avi=1.000=1=0=0'])};", "#FGCHANGES:;"]
+    if rng.random() < 0.3:
+        # the order of the header tags is free (editors write #OFFSET before #BPMS; nothing requires it)
+        first = 1 if lines and lines[0].startswith("//") else 0
+        tags = lines[first:]
+        rng.shuffle(tags)
+        lines = lines[:first] + tags
     charts = []
     for ci in range(n_charts):
         ctype, keys = rng.choice(TYPES)
